@@ -164,6 +164,41 @@ PROPS['C29'] = {
     'claim_draft': "Lean theorems about the app-DB/tree model (MinterModel/Persist.lean): the snapshot at height h is a function of the flushed disk content (snapshot_fun_of_disk), so every node that committed the same blocks - under any restart pattern - produces the same snapshot or both halt (snapshot_same_on_every_node); a node restored from it starts, reports the producer's height and app hash and has the same logical content, the tree agreeing from h upwards (restore_info); all later observations of the restored node equal those of the node that executed every block although its tree holds only version h (restore_bisim, TreeAgree: pruning decisions may differ below h). Tie: mode snapshot drives the real ListSnapshots/LoadSnapshotChunk/OfferSnapshot/ApplySnapshotChunk between real nodes of generated histories (mixed, staking), compares the chunks of two producers, Info after restore, then responses, app hashes, full exports and app-DB getters of restored vs replaying node for the following blocks. Partial: no Q-level tie for this property (monitor on the real node only); chunk encoding, IAVL import and the light-client check are trusted/exercised.",
 }
 
+# begin builder: BeginBlock model (absences, byzantine punishment, frozen-fund maturity) of the fixed code (/repo ecfb9df)
+BEGIN_MODE = {'mode': 'beginq', 'args': ['-seed', '{seed}', '-n', '{n:3000:60000}', '-driver', '{driver}', '-keep', '{keep}']}
+BEGIN_ASSUMPTIONS = ['Tendermint address = injective function of the public key on the keys present (the model finds the validator by address and the candidate by that validator\'s key)',
+                     'State.frozen is sorted by height (true for State.ofDump / Export): the model slashes in list order, Go in height order',
+                     'CalculateSaleReturn of custom-coin slashes is an oracle (answered by the real function over the line protocol, recorded in the trace)',
+                     'the live projection (read-only getters + the verif hooks VerifUpdates / lock-stake getter) is the abstraction function',
+                     MODEL_NOTE]
+PROPS['C16'] = {
+    'level': 'proof', 'registered': False,
+    'modules': ['MinterProofs.Props.C16'],
+    'theorems': ['Minter.frozen_released_only_when_due', 'Minter.not_due_survives', 'Minter.no_evidence_funds_untouched',
+                 'Minter.balances_only_matured', 'Minter.balance_unchanged_without_due_fund', 'Minter.due_fund_is_paid',
+                 'Minter.move_never_to_balance', 'Minter.unbond_to_balance', 'Minter.move_needs_existing_target', 'Minter.moves_reach_target',
+                 'Minter.leave_creates_frozen', 'Minter.removal_funds_due', 'Minter.unbond_due', 'Minter.locked_cannot_unbond',
+                 'Minter.move_due_and_target_exists', 'Minter.move_to_unknown_rejected', 'Minter.lock_due'],
+    'campaigns': [camp('staking', 16, 200), camp('begin', 8, 60), camp('ledger', 8, 100)],
+    'mismatch_counts': True,
+    'assumptions': BEGIN_ASSUMPTIONS,
+    'claim_draft': "Lean theorems about the BeginBlock model (MinterModel/BeginBlock.lean: absences, byzantine punishment, maturity of frozen funds, in the order of Blockchain.BeginBlock) and the fund-creating side of Unbond/MoveStake/Lock/candidate removal, for all states, requests and oracle answers: after BeginBlock at h the frozen funds are the old ones (every field unchanged except a value cut once per matching punishment) plus remainder funds all due h+unbond, minus exactly the funds stored under h; no fund with another height is released and nothing returns earlier (frozen_released_only_when_due, not_due_survives, no_evidence_funds_untouched, due_fund_is_paid); per (owner, coin) the balance grows by exactly the owner's non-move funds stored under h and is unchanged without one (balances_only_matured, balance_unchanged_without_due_fund, unbond_to_balance); a matured move never reaches a balance but the updates of its target candidate with bip 0, and a missing target never yields a result (move_never_to_balance, moves_reach_target, move_needs_existing_target); funds are created due exactly at h+unbond (punishment remainder, candidate removal, Unbond), block+move (MoveStake, target must be an existing candidate, else code 403) and DueBlock (Lock); a locked stake cannot be unbonded (416) (leave_creates_frozen, removal_funds_due, unbond_due, move_due_and_target_exists, move_to_unknown_rejected, lock_due, locked_cannot_unbond). Tie: on every S begin the driver runs beginBlock on the node's live state before the block (votes and evidence as sent, grace recomputed from the start height and the version heights) and compares balances, frozen funds, stakes, pending updates, candidates, validators and pools with the node's live projection after it (MISMATCH C16/C18 begin ...); stakingTxMonitor ties the tx-side functions to every delivered Unbond/MoveStake/Lock/SetCandidateOn (accepted => the predicted fund is new; model rejects => node rejected; same code for 416/417/123/414); campaigns staking, begin (112 warm-up blocks so that the generated blocks straddle the end of the initial grace period, duplicated evidence) and ledger. Partial: the tx-side functions model only the C16-relevant validations (stake/waitlist sufficiency and commission belong to the transaction model); reward/price update, max gas and events are not in the BeginBlock model.",
+}
+PROPS['C18'] = {
+    'level': 'proof', 'registered': False,
+    'modules': ['MinterProofs.Props.C18'],
+    'theorems': ['Minter.absent_threshold', 'Minter.absent_below_threshold', 'Minter.absent_unknown_ignored', 'Minter.absence_moves_no_value',
+                 'Minter.jailed_cannot_switch_on', 'Minter.unjailed_owner_can_switch_on', 'Minter.absent_jails_for_period',
+                 'Minter.byzantine_cut_is_ceil', 'Minter.byzantine_slash', 'Minter.byzantine_punishment', 'Minter.remainder_fund_exact',
+                 'Minter.byzantine_skips', 'Minter.skip_is_stable', 'Minter.punish_once', 'Minter.punished_has_no_stakes',
+                 'Minter.begin_conserves', 'Minter.begin_preserves_conserved'],
+    'campaigns': [camp('begin', 8, 60), camp('staking', 16, 200), camp('ledger', 8, 100)],
+    'modes': [BEGIN_MODE],
+    'mismatch_counts': True,
+    'assumptions': BEGIN_ASSUMPTIONS,
+    'claim_draft': "Lean theorems about the BeginBlock model of the fixed code (punish-once fix ecfb9df), for all states, vote lists, evidence lists and oracle answers: SetValidatorAbsent switches the validator off (fresh bit array, toDrop, candidate offline) exactly when more than 12 of the 24 bits are set and jails the candidate until h+jail iff the block is outside a grace period; below the threshold only the bit changes; unknown addresses are ignored; absences move no value (absent_threshold, absent_below_threshold, absent_unknown_ignored, absence_moves_no_value, absent_jails_for_period); SetCandidateOn is rejected for every block <= jailedUntil whoever sends and accepted for the owner afterwards (jailed_cannot_switch_on, unjailed_owner_can_switch_on); the byzantine cut v - floor(95v/100) is the rounded-up 5% for every integer (byzantine_cut_is_ceil); a punishment cuts every stake and every unbonding fund of that candidate inside the window by exactly that amount, freezes the remainder at h+unbond, zeroes the stakes, drops the validator and credits the slashed pool (base coin) resp. burns the coin and moves CalculateSaleReturn of reserve to the slashed pool (byzantine_slash, byzantine_punishment, remainder_fund_exact, punished_has_no_stakes); evidence against an unknown / offline / already dropped validator is skipped and a validator is punished at most once per block whatever entries follow (byzantine_skips, skip_is_stable, punish_once); the whole BeginBlock conserves volume-holdings of every coin and the base total (begin_conserves, begin_preserves_conserved). Tie: kernel mode beginq (SetAbsent/SetPresent/CountAbsentTimes, Grace.IsGraceBlock, IsCandidateJailed vs the Lean definitions) + the S begin comparison and stakingTxMonitor of C16 on campaigns begin/staking/ledger; the separate monitor VIOL C18 candidate-punished-twice-in-one-block stays armed. Partial: absent_threshold is about one vote step (no theorem composes it over the whole vote list; covered by absence_moves_no_value and the node comparison); events are produced but not compared with the events DB.",
+}
+
 
 # ---------------------------------------------------------------------------------------------------------------
 # What is claimed (MANIFEST.json is generated from this by tools/gen_manifest.py)
